@@ -681,7 +681,8 @@ class XsdGroup(XsdComponent, MutableSequence[ModelParticleType],
     @schema_cache
     def is_restriction(self, other: ModelParticleType, check_occurs: bool = True) -> bool:
         if not self._group:
-            return True
+            # An empty content is a restriction only of an emptiable particle
+            return not isinstance(other, ParticleMixin) or other.is_emptiable()
         elif not isinstance(other, ParticleMixin):
             raise XMLSchemaValueError("the argument 'other' must be an XSD particle")
         elif not isinstance(other, XsdGroup):
@@ -1299,7 +1300,8 @@ class Xsd11Group(XsdGroup):
 
     def is_restriction(self, other: ModelParticleType, check_occurs: bool = True) -> bool:
         if not self._group:
-            return True
+            # An empty content is a restriction only of an emptiable particle
+            return not isinstance(other, ParticleMixin) or other.is_emptiable()
         elif not isinstance(other, ParticleMixin):
             raise XMLSchemaValueError("the argument 'base' must be a %r instance" % ParticleMixin)
         elif not isinstance(other, XsdGroup):
